@@ -1,6 +1,7 @@
 import Arc.Base.Proto
 import Arc.Model.C21
 import Arc.Model.C21Current
+import Arc.Model.C21Replay
 /-! Model driver for C21: replays a forced schedule observed on the real AuthManager through the
 LTS (configured from the regenerated facts) and prints, per step, where the model says the thread
 stops / what it returns — the harness prints what the real goroutine did. -/
@@ -10,6 +11,8 @@ structure DS where
   cfg : Cfg := currentCfg 0 0
   s : State := { sh := { db := none, cache := [], gen := 0, now := 0, conn := none }, vs := [],
                  m := { kind := .revoke, cluster := false, inval := false, pc := .done } }
+  /-- persistent row of the log-replay histories -/
+  rdb : Option Row := none
 
 def b01 (s : String) : Bool := s == "1"
 
@@ -58,10 +61,13 @@ def stepC21 (d : DS) (fs : List String) : DS × String :=
       | "revoke", [] => some .revoke
       | "delete", [] => some .delete
       | "rotate", [nv] => (nat? nv).map .rotate
+      | "setexp", ["-"] => some (.setexp none)
+      | "setexp", [e] => (nat? e).map (fun t => .setexp (some t))
       | _, _ => none
     match k with
     | some k =>
-      ({ d with s := { d.s with m := { kind := k, cluster := b01 cluster, inval := invalOf (b01 cluster) kind } } }, "ok")
+      let fk := if kind == "setexp" then "update" else kind
+      ({ d with s := { d.s with m := { kind := k, cluster := b01 cluster, inval := invalOf (b01 cluster) fk } } }, "ok")
     | none => (d, "bad-op")
   | ["tick", dt] =>
     match nat? dt with
@@ -120,6 +126,33 @@ def stepC21 (d : DS) (fs : List String) : DS × String :=
     match nat? val with
     | some val => (d, if (d.s.sh.cache.lookup val).isSome then "1" else "0")
     | none => (d, "bad-op")
+  | ["rnew"] => ({ d with rdb := none }, "ok")
+  | ["rcreate", val, legacy, exp] =>
+    match nat? val, (if exp == "-" then some none else (nat? exp).map some) with
+    | some val, some e =>
+      let x := LogEntry.create { hashOf := val, legacy := b01 legacy, enabled := true, expiry := e }
+      ({ d with rdb := applyEntry Arc.Generated.C21.createReplayNoop d.rdb x },
+        if applyOk d.rdb x then "ok" else "err")
+    | _, _ => (d, "bad-op")
+  | "rmut" :: kind :: rest =>
+    let k : Option MKind :=
+      match kind, rest with
+      | "revoke", [] => some .revoke
+      | "delete", [] => some .delete
+      | "rotate", [nv] => (nat? nv).map .rotate
+      | "setexp", ["-"] => some (.setexp none)
+      | "setexp", [e] => (nat? e).map (fun t => .setexp (some t))
+      | _, _ => none
+    match k with
+    | some k =>
+      let x := LogEntry.mutate k
+      ({ d with rdb := applyEntry Arc.Generated.C21.createReplayNoop d.rdb x },
+        if applyOk d.rdb x then "ok" else "err")
+    | none => (d, "bad-op")
+  | ["rprobe", val, now] =>
+    match nat? val, nat? now with
+    | some val, some now => (d, if accepts d.rdb val now then "ok" else "nil")
+    | _, _ => (d, "bad-op")
   | _ => (d, "bad-op")
 
 def main : IO Unit := Arc.Proto.run stepC21 {}
